@@ -28,6 +28,7 @@ RULE += (
          'the same body and inside a sub-template whose encoding '
          "differs from the page's. ")
 RULE += ('Round 8: named special formats that are the identity on the value next to html_quote. ')
+RULE += ('Round 9: the same value inserted plainly and quoted in one body. ')
 ASSUMPTIONS = [
     'html.escape(str, quote=True) defines the expected text',
     'identity options are applied only when they are the identity on the value '
